@@ -26,7 +26,36 @@ func (s genericSortable) Swap(i, j int) {
 
 // Less is part of sort.Interface.
 func (s genericSortable) Less(i, j int) bool {
-	return Less(s[i], s[j])
+	return sortLess(s[i], s[j])
+}
+
+// sortLess is the order that sort puts values in. Less alone answers false whenever nil or two values of
+// different kinds meet; an order in which everything "equals" nil is not transitive, and sorting with it left
+// [3, nil, 1, 2] as it was. Values are therefore grouped first - nil, numbers, text, booleans, everything else -
+// and compared by Less within a group.
+func sortLess(a, b any) bool {
+	ra, rb := sortGroup(a), sortGroup(b)
+	if ra != rb {
+		return ra < rb
+	}
+	return Less(a, b)
+}
+
+func sortGroup(value any) int {
+	value = ToLiquid(value)
+	if value == nil {
+		return 0
+	}
+	switch k := reflect.ValueOf(value).Kind(); {
+	case isIntKind(k), isFloatKind(k):
+		return 1
+	case k == reflect.String:
+		return 2
+	case k == reflect.Bool:
+		return 3
+	default:
+		return 4
+	}
 }
 
 // SortByProperty sorts maps on their key indices.
@@ -67,7 +96,7 @@ func (s sortableByProperty) Less(i, j int) bool {
 	case b == nil:
 		return !s.nilFirst
 	}
-	return Less(a, b)
+	return sortLess(a, b)
 }
 
 // RecordEntry returns the entry that the record item (a map with string keys of any string type, a map with
